@@ -1415,6 +1415,19 @@ class Exec:
                 items = v.args
             elif isinstance(v, SList) and not v.opaque_tail and len(v.items) == len(t.elts):
                 items = v.items
+            stars = [i for i, x in enumerate(t.elts) if isinstance(x, ast.Starred)]
+            whole = list(v.args) if isinstance(v, T) and v.op == 'tuple' else \
+                list(v.items) if isinstance(v, SList) and not v.opaque_tail and not v.tail and v.kind in ('list', 'set') else None
+            if len(stars) == 1 and whole is not None and len(whole) >= len(t.elts) - 1:
+                # a, *rest, z = <enumerated sequence>: the starred name takes what the others leave, as a new list
+                k = stars[0]
+                n_after = len(t.elts) - k - 1
+                for i, x in enumerate(t.elts[:k]):
+                    self.bind(x, whole[i], env, store_event)
+                self.bind(t.elts[k].value, SList(whole[k:len(whole) - n_after]), env, store_event)
+                for j, x in enumerate(t.elts[k + 1:]):
+                    self.bind(x, whole[len(whole) - n_after + j], env, store_event)
+                return
             for i, x in enumerate(t.elts):
                 if isinstance(x, ast.Starred):
                     self.bind(x.value, T('item', (v, T('rest', (i,)))), env, store_event)
